@@ -355,33 +355,76 @@ def MoveOk (g g' : G) (th th' : Thread) : Prop :=
       = (if e < g.next then (g.ent e).holders else 0) + heldOf e th')
   ∧ HeldOk g' th' ∧ g.next ≤ g'.next
 
+theorem mem_of_mem_dropLast' {α : Type} : ∀ {l : List α} {x : α}, x ∈ l.dropLast → x ∈ l
+  | [], _, h => by simp at h
+  | [_], _, h => by simp at h
+  | a :: b :: cs, x, h => by
+    simp only [List.dropLast_cons_cons, List.mem_cons] at h
+    rcases h with h | h
+    · subst h; simp
+    · exact List.mem_cons_of_mem _ (mem_of_mem_dropLast' (by simpa using h))
+
+theorem oldestHeld_some {k e0 : Nat} : ∀ {l : List (Nat × Nat)}, oldestHeld l = some (k, e0) →
+    ∀ e, l.dropLast.countP (fun x => x.2 == e) + (if e = e0 then 1 else 0) = l.countP (fun x => x.2 == e)
+  | [], h => by simp [oldestHeld] at h
+  | [x], h => by
+    simp only [oldestHeld, Option.some.injEq] at h
+    subst h
+    intro e
+    by_cases he : e = e0
+    · subst he; simp
+    · have : (e0 == e) = false := by simp; exact fun h' => he h'.symm
+      simp [he, this]
+  | x :: y :: ys, h => by
+    have h' : oldestHeld (y :: ys) = some (k, e0) := by simpa [oldestHeld] using h
+    intro e
+    have := oldestHeld_some h' e
+    simp only [List.dropLast_cons_cons, List.countP_cons] at this ⊢
+    omega
+
+theorem delStartWith_sound {g g' : G} {prog : List Op} {pc : PC} {held held' : List (Nat × Nat)} {k : Nat}
+    {h : Option Nat} {stay after : List Op} {th' : Thread} {ls : List Label} {ev : String}
+    (hok : HeldOk g { prog := prog, pc := pc, held := held })
+    (hsub : ∀ x, x ∈ held' → x ∈ held)
+    (hcnt : ∀ e, held'.countP (fun x => x.2 == e) + hDec (.del1 k h) e = held.countP (fun x => x.2 == e))
+    (hm : delStartWith g k h held' stay after = .go ls th' ev)
+    (hr : runLabels g ls = some g') :
+    MoveOk g g' { prog := prog, pc := pc, held := held } th' := by
+  have key : ∀ (p : List Op) (q : PC), ls = [.del1 k h] →
+      th' = { prog := p, pc := q, held := held' } →
+      MoveOk g g' { prog := prog, pc := pc, held := held } th' := by
+    intro p q hls hth
+    subst hls hth
+    have hg := runLabels_single hr
+    refine ⟨move_balance hg ?_, fun x hx => Nat.lt_of_lt_of_le (hok x (hsub x hx)) (gstep_frame hg).1,
+      (gstep_frame hg).1⟩
+    intro e
+    have := hcnt e
+    have h0 : hInc g (.del1 k h) e = 0 := rfl
+    simp only [heldOf, h0]
+    omega
+  unfold delStartWith at hm
+  split at hm
+  · cases hm; exact key _ _ rfl rfl
+  · split at hm
+    · cases hm; exact key _ _ rfl rfl
+    · split at hm <;> (cases hm; exact key _ _ rfl rfl)
+
 theorem delStart_sound {g g' : G} {prog rest : List Op} {pc : PC} {held : List (Nat × Nat)} {k : Nat} {op : Op}
     {th' : Thread} {ls : List Label} {ev : String}
     (hok : HeldOk g { prog := prog, pc := pc, held := held })
     (hm : delStart g { prog := prog, pc := pc, held := held } k op rest = .go ls th' ev)
     (hr : runLabels g ls = some g') :
     MoveOk g g' { prog := prog, pc := pc, held := held } th' := by
-  have key : ∀ (p : List Op) (q : PC), ls = [.del1 k (findHeld k held)] →
-      th' = { prog := p, pc := q, held := eraseHeld k held } →
-      MoveOk g g' { prog := prog, pc := pc, held := held } th' := by
-    intro p q hls hth
-    subst hls hth
-    have hg := runLabels_single hr
-    refine ⟨move_balance hg ?_, fun x hx => Nat.lt_of_lt_of_le (hok x (eraseHeld_subset hx)) (gstep_frame hg).1,
-      (gstep_frame hg).1⟩
-    intro e
-    cases hf : findHeld k held with
-    | none => simp [heldOf, hDec, hInc, findHeld_none hf]
-    | some e0 =>
-      have := (findHeld_some hf).2 e
-      simp only [heldOf, hDec, hInc]
-      omega
   unfold delStart at hm
-  split at hm
-  · cases hm; exact key _ _ rfl rfl
-  · split at hm
-    · cases hm; exact key _ _ rfl rfl
-    · split at hm <;> (cases hm; exact key _ _ rfl rfl)
+  refine delStartWith_sound hok (fun x hx => eraseHeld_subset hx) ?_ hm hr
+  intro e
+  cases hf : findHeld k held with
+  | none => simp [hDec, findHeld_none hf]
+  | some e0 =>
+    have := (findHeld_some hf).2 e
+    simp only [hDec]
+    omega
 
 /-- **one move keeps the books.** -/
 theorem tmove_sound {nk : Nat} {g g' : G} {th th' : Thread} {ls : List Label} {ev : String}
@@ -480,6 +523,23 @@ theorem tmove_sound {nk : Nat} {g g' : G} {th th' : Thread} {ls : List Label} {e
       · split at hm <;> (cases hm; exact same _ _ _ rfl rfl (fun _ => rfl) (fun _ => rfl))
     case destruct.del e v k => cases hm; exact same _ _ _ rfl rfl (fun _ => rfl) (fun _ => rfl)
     case destruct.cdel e v k => cases hm; exact same _ _ _ rfl rfl (fun _ => rfl) (fun _ => rfl)
+    case idle.closeAll =>
+      split at hm
+      · cases hm
+        simp only [runLabels] at hr; cases hr
+        exact ⟨fun e he => by simp [he, heldOf], hok, Nat.le_refl _⟩
+      · rename_i k e0 ho
+        refine delStartWith_sound hok (fun x hx => mem_of_mem_dropLast' hx) ?_ hm hr
+        intro e
+        have := oldestHeld_some ho e
+        simp only [hDec]
+        omega
+    case delRead.closeAll e =>
+      unfold delRead at hm
+      split at hm
+      · cases hm
+      · split at hm <;> (cases hm; exact same _ _ _ rfl rfl (fun _ => rfl) (fun _ => rfl))
+    case destruct.closeAll e v => cases hm; exact same _ _ _ rfl rfl (fun _ => rfl) (fun _ => rfl)
 
 /-! ### the books of a whole system -/
 
